@@ -142,6 +142,43 @@ Proof.
     reflexivity.
 Qed.
 
+(* ------------------------------------------------------------------ class construction in __new__ *)
+
+(* The class InterfaceClass.__new__ gives to an interface whose body has interfacemethods, with the
+   bases read from the source: the definitions visible on the new class are its own followed by
+   those of its bases in order ([CCls] contributes those of cls, _InterfaceClassWithCustomMethods
+   none), and the flags are those of gen_new_kls. *)
+Definition bases_adapt (bs : list cbase) (cls : kls) : list (nat * cbeh) :=
+  flat_map (fun b => match b with CCls => k_adapt cls | CWcm => [] end) bs.
+Definition bases_prov (bs : list cbase) (cls : kls) : list (nat * pbeh) :=
+  flat_map (fun b => match b with CCls => k_prov cls | CWcm => [] end) bs.
+Definition bases_flag_mro (bs : list cbase) (cls : kls) : bool :=
+  existsb (fun b => match b with CCls => k_flag_mro cls | CWcm => false end) bs.
+
+Definition gen_new_class (is_custom is_ic : bool) (i : nat) (cls : kls) (l : lvl) : kls :=
+  if has_methods l then
+    let bs := new_class_bases is_custom is_ic in
+    let adapt' := match l_adapt l with Some b => (i, b) :: bases_adapt bs cls | None => bases_adapt bs cls end in
+    let prov' := match l_prov l with Some b => (i, b) :: bases_prov bs cls | None => bases_prov bs cls end in
+    let new_flag := new_flag_adapt (is_some (l_adapt l)) (k_flag_mro cls) in
+    let flag := new_flag || isc_flag_adapt (negb (is_nil adapt')) (negb (is_nil prov')) in
+    mkKls flag (flag || bases_flag_mro bs cls) adapt'
+          (isc_flag_prov (negb (is_nil adapt')) (negb (is_nil prov'))) prov'
+  else cls.
+
+(* [is_ic]: cls is InterfaceClass itself, i.e. base_kls; otherwise any class *)
+Lemma generated_new_eq_model is_custom is_ic i cls l :
+  (is_ic = true -> cls = base_kls) -> l_plain l = false ->
+  gen_new_class is_custom is_ic i cls l = new_kls true i cls l.
+Proof.
+  intros Hic Hpl. unfold gen_new_class, new_kls, new_kls_gen, new_class_bases, new_flag_adapt,
+    isc_flag_adapt, isc_flag_prov, bases_adapt, bases_prov, bases_flag_mro.
+  rewrite Hpl. cbn [orb].
+  destruct is_custom, is_ic; try (rewrite (Hic eq_refl)); cbn [flat_map existsb app k_adapt k_prov k_flag_mro base_kls];
+    rewrite ?app_nil_r, ?orb_false_r;
+    destruct (has_methods l), (l_adapt l), (l_prov l); try reflexivity.
+Qed.
+
 Lemma generated_py_eq_model k o :
   gen_call k o = (fst (py_call k o), ctl_of_outcome (snd (py_call k o))) /\
   gen_default_adapt k o = (fst (py_default_adapt k o), ctl_of_ares (snd (py_default_adapt k o))) /\
